@@ -16,3 +16,10 @@ Definition chk_rc (lang : string) (nt : numtype) (shape : list Z) (bo : byteorde
   ostr_eqb (readcode_array lang nt shape bo m "a" false) observed.
 Definition chk_langs (nt : numtype) (shape : list Z) (bo : byteorder) (observed : list string) : bool :=
   list_eqb String.eqb (readcodelanguages nt shape bo) observed.
+
+(* ---------- C07 ---------- *)
+From Darr Require Import ReadcodeRagged.
+Definition chk_rrc (lang : string) (r : rinfo) (m : pathmode) (observed : option string) : bool :=
+  ostr_eqb (readcode_ragged lang r m) observed.
+Definition chk_rlangs (r : rinfo) (observed : list string) : bool :=
+  list_eqb String.eqb (ragged_readcodelanguages r) observed.
